@@ -45,7 +45,8 @@ CLAIMS = {
         "index and the guarded table extension; seek_until stops right after the FIRST occurrence of each tag the parser "
         "passes and raises at end of stream (for any stream; a wrong scanner is reported with the shortest witness stream); an "
         "additional-data block is framed as tag[8] + u64 length + payload + filler to 8 bytes (explicit filler functions and "
-        "alignment moduli are evaluated for payload lengths 0..63).",
+        "alignment moduli are evaluated for payload lengths 0..63); the fields of a log record that are numbers of the string index "
+        "are each replaced by log_strings[number] (taken over from C16/R6).",
         "Scanners outside the two decided families (block reads, nested loops) give exit 2. Agreement of the tag scan with real stackshot contents, the seek(-8,1) rewind and the Select fallback depend on file "
         "bytes and are not decided.",
         "DESIGN.md §4 C03"),
@@ -67,7 +68,8 @@ CLAIMS = {
         "write/read of parser state by its first key",
         "Decides the necessary condition for schedule independence: the only state that outlives one decoder invocation is "
         "either keyed first by the emitting thread's id or one of the frozen by-design global tables; no scalar slot is "
-        "written by one invocation and read by another; no module/class-level object is mutated. Equality of per-thread "
+        "written by one invocation and read by another; no module/class-level object is mutated; a name record files its text "
+        "under the pid of the emitting thread's own pending data record (taken over from C14/R4). Equality of per-thread "
         "results across interleavings is argued from this, not checked.",
         "The by-design tables (threads_pids, pids_names, global_strings, tids_names, dyld_*) are excluded by the property's own "
         "quantifier; they are frozen in the rule with reasons.",
@@ -78,7 +80,8 @@ CLAIMS = {
         "pipeline stages",
         "Decides termination (every loop that reads the stream leaves it when read() returns b''; reads consume constant "
         "positive sizes), no fabrication (from_kd_buf only ever receives the raw 64-byte read) and laziness (generator "
-        "functions and filter/map/generator-expression stages only, no materialisation or reordering; print_with_count tests "
+        "functions and filter/map/generator-expression stages only, no materialisation - a list comprehension over the stream "
+        "counts as one - or reordering; print_with_count tests "
         "the count before printing). Prefix equality itself follows from laziness + determinism and is argued, not checked.",
         "Read cost inside construct is trusted to be linear.",
         "DESIGN.md §4 C06"),
@@ -89,7 +92,8 @@ CLAIMS = {
         "each access is shown to be covered on every path by a membership test of the same key, a length fact, a None test, "
         "iteration over the same table, .get, a dominating store or a matching try/except. This quantifies over all "
         "histories because the facts do not depend on which records were seen. Truthiness of a key is not accepted as "
-        "membership.",
+        "membership. The facade's line builders index the shared thread / process tables only under a membership test or "
+        "through .get.",
         "Enum(x) for undeclared x and .decode() of invalid text are outside the property's premise; windows are non-empty by "
         "C04 so events[0]/events[-1]/ktraces[0] are not tracked; non-constant indexes (bisect results) are C15's.",
         "DESIGN.md §4 C07"),
@@ -147,8 +151,9 @@ CLAIMS = {
         "to the specification read off the property. Given that filter() yields exactly the order- and "
         "multiplicity-preserving matching subsequence, this covers all streams x all filter configurations, including "
         "tid 0 and empty lists. No facade method rebinds or updates (in-place `+=` on an alias included) the filter_* "
-        "objects the predicates read, so the statement also holds after any history of other requests. CLI option wiring "
-        "is checked as well.",
+        "objects the predicates read, so the statement also holds after any history of other requests. A stage written as a "
+        "generator method yields the loop element at most once per iteration (two yields whose path conditions can hold "
+        "together list an element twice). CLI option wiring is checked as well.",
         "Trusts filter()/generator-expression semantics; predicates outside the small recognised language give exit 2.",
         "DESIGN.md §4 C12"),
     "C13": (
@@ -224,7 +229,9 @@ CLAIMS = {
         "comparison of twin renderings",
         "Decided in full: all registry keys x all code-table lines are enumerated (finite, exhaustive); for each "
         "X_nocancel twin the handler is interpreted symbolically with no_cancel bound both ways and the two rendered "
-        "templates are compared for every alternative, which covers all START/END tuples at once.",
+        "templates are compared for every alternative, which covers all START/END tuples at once. No code outside a family's "
+        "module writes into that family's registry (a merge that accumulates into the first family's table makes it claim "
+        "every other family's names).",
         "Trusts dict-literal/`update` semantics (last wins), functools.partial, and the analyser's symbolic "
         "interpretation of handler bodies and __str__ methods.",
         "DESIGN.md §4 C17"),
@@ -234,11 +241,13 @@ CLAIMS["C20"] = (
     "term matching on the symbolic value of the objects returned by the three composite decoders (gates, selections by "
     "table name, sort key, END-word provenance)",
     "Decides structural clauses for all windows: page-fault result/type from END words 2/3, pid/protection from the decode of "
-    "the first real-fault record among the inner records, taken only when present and decodable; launch image list = sorted by "
+    "the first real-fault record among the inner records, taken only when present and decodable - the condition that picks "
+    "those records is evaluated for every id of the bundled code table: every RealFaultAddress* code with a registered decoder "
+    "is picked and no code outside that group; launch image list = sorted by "
     "load address over every nested image-map and shared-cache-map record; sampler thread info / user stack present exactly "
     "when the flag is set and the record exists, None otherwise.",
     "Behaviour under unrelated interleaved records beyond the selection predicates is not decided; the real-fault selection "
-    "is by literal id range (noted in DESIGN.md, not a violation of the statement).",
+    "is by id (judged against the bundled table, not a supplied one).",
     "DESIGN.md §4 C20")
 
 NOT_YET = "check under construction in this session (design in DESIGN.md §4); not claimed until the rule module exists"
